@@ -58,3 +58,20 @@ _p("C11", modules=["checksums"], level="proof",
    design_ref="DESIGN.md 4 C11", explanation="", assumptions=["sum over pseudo-header ++ segment is positive (the protocol number is non-zero)"],
    trusted_base=["dpkt.tcp.TCP / dpkt.udp.UDP / dpkt.ip.IP / dpkt.ip6.IP6 attribute model"],
    not_under_contract=[])
+
+
+def _c14_extra(tier, seed):
+    from contracts.cipher_suites import enumerate_all
+    return enumerate_all(tier, seed)
+
+
+_p("C14", modules=["cipher_suites"], level="proof", extra=[_c14_extra],
+   technique="proof by exhaustion: the real split_cipher_suite evaluated on all 65 536 code points against a frozen IANA registry + independent name parser; KeyError path by VC",
+   level_text="The domain is finite (2-byte code points): the real function is evaluated on all 65 536 inputs and every accepted code point must be the "
+              "IANA-registered code point of its name with bulk cipher, key length, mode/AEAD-ness, tag length and hash equal to what an independent token "
+              "parser derives from the IANA name; all others must be rejected without exception. A loop-free check over the full domain is complete. "
+              "The not-in-table path is additionally a symbolic obligation for ids of any length.",
+   level_note="oracle: specs/iana_tls_cipher_suites.json (frozen copy from dpkt 1.9.8 + scapy 2.7.0 registries, 10 entries from RFC 8442/8492/6655 text); "
+              "the oracle's own correctness is trusted; class identity of cryptography objects is compared by class name",
+   design_ref="DESIGN.md 4 C14", explanation="", assumptions=[], trusted_base=["specs/iana_tls_cipher_suites.json is a faithful copy of the IANA registry"],
+   not_under_contract=["Decryptor.decrypt dispatch totality (dispatch_total) is part of C01's contracts"])
